@@ -13,6 +13,7 @@ import (
 
 	"github.com/ipfs/go-cid"
 	"github.com/ipfs/go-datastore"
+	logging "github.com/ipfs/go-log/v2"
 	cidlink "github.com/ipld/go-ipld-prime/linking/cid"
 	"github.com/ipni/go-libipni/dagsync"
 	"github.com/libp2p/go-libp2p/core/peer"
@@ -95,6 +96,7 @@ var interesting = map[string]bool{
 var Watchdog = 4 * time.Second
 
 var runMu sync.Mutex // SetVerifYield is process-global: one run at a time
+var quietOnce sync.Once
 
 type Run struct {
 	Cfg  Config
@@ -107,6 +109,7 @@ type Run struct {
 
 	arrivals chan *arrival
 	early    []*arrival  // arrivals of woken-up threads seen while waiting for another one
+	earlyW   *arrival    // the watcher back at watch:next with the queued announcement, seen early
 	free     atomic.Bool // yields pass through (teardown)
 
 	parked   map[int]*arrival
@@ -137,6 +140,8 @@ type Run struct {
 	ObsQuiescent bool
 	AnnOrder     map[int][]int // announcements in the order the watcher received them
 	Removed      []int         // publishers whose handler was removed (RemoveHandler true / cleaner)
+	EverBlocked  int           // how often a goroutine had to wait for a mutex / the semaphore
+	MaxOpen      int           // most publishers inside handler.handle at once
 }
 
 func goid() uint64 {
@@ -169,6 +174,7 @@ func goroutineGone(id uint64) bool {
 // the yield callback and as the block hook.
 func NewRun(cfg Config) *Run {
 	runMu.Lock()
+	quietOnce.Do(func() { _ = logging.SetLogLevel("*", "fatal") })
 	r := &Run{Cfg: cfg, M: NewModel(cfg.V, cfg.Cap),
 		pubOf: map[peer.ID]int{}, arrivals: make(chan *arrival, 4096),
 		parked: map[int]*arrival{}, goOf: map[int]uint64{}, tidOf: map[uint64]int{},
@@ -252,6 +258,10 @@ func (r *Run) waitFor(what string, accept func(a *arrival) bool) *arrival {
 				r.early = append(r.early, a)
 				continue
 			}
+			if a.point == YWatchNext && r.annOut != nil && r.earlyW == nil {
+				r.earlyW = a
+				continue
+			}
 			r.raw(a, -1)
 			r.abort("unexpected-arrival", "while waiting for %s: goroutine %d arrived at %s (publisher %d)", what, a.goid, a.point, r.pubOf[a.peer])
 			r.release(a)
@@ -279,7 +289,11 @@ func (r *Run) watcherIdle() {
 		return
 	}
 	d := *r.annOut
-	a := r.waitFor(fmt.Sprintf("the watcher receiving announcement %v", d), func(a *arrival) bool { return a.point == YWatchNext })
+	a := r.earlyW
+	r.earlyW = nil
+	if a == nil {
+		a = r.waitFor(fmt.Sprintf("the watcher receiving announcement %v", d), func(a *arrival) bool { return a.point == YWatchNext })
+	}
 	if a == nil {
 		return
 	}
@@ -370,6 +384,7 @@ func (r *Run) advance(t int, pre *arrival, release func()) {
 				return
 			}
 			r.blocked[t] = true
+			r.EverBlocked++
 			return
 		case y.Point == YAsyncStart:
 			a := r.waitFor(fmt.Sprintf("the goroutine spawned for publisher %d reaching async:start", th.Pub),
@@ -605,6 +620,9 @@ func (r *Run) Finish() {
 	for _, a := range r.early {
 		r.release(a)
 	}
+	if r.earlyW != nil {
+		r.release(r.earlyW)
+	}
 drain:
 	for {
 		select {
@@ -645,6 +663,18 @@ wait:
 	r.evMu.Unlock()
 	for _, p := range r.Pubs {
 		p.Close()
+	}
+	open := map[int]bool{}
+	for _, e := range r.Raw {
+		switch e.Point {
+		case YHandleLocked:
+			open[e.Pub] = true
+			if len(open) > r.MaxOpen {
+				r.MaxOpen = len(open)
+			}
+		case YHandleUnlocking:
+			delete(open, e.Pub)
+		}
 	}
 	runMu.Unlock()
 }
